@@ -151,12 +151,21 @@ Theorem C16_generated_id_fresh : forall h t f w i,
 Proof. exact generated_id_fresh. Qed.
 Print Assumptions C16_generated_id_fresh.
 
+(* what uriFor(obj) / proxyFor(obj) hand out, every state: only an id under which that very object (or class) is
+   registered - never the id the object once had and that reaches something else by now. *)
+Theorem C16_uri_names_own_registration : forall s t i,
+  (snd (step quirks_none s (UriObj t)) = RUri i \/ snd (step quirks_none s (ProxyObj t)) = RUri i) ->
+  registered_at s i t.
+Proof. exact uri_names_own_registration. Qed.
+Print Assumptions C16_uri_names_own_registration.
+
 (* ---- the defects: each quirk alone breaks the statement it names (witnesses replayed on the code) ---- *)
-Definition only_unreg_id := mk_quirks true false false false false.
-Definition only_unreg_obj := mk_quirks false true false false false.
-Definition only_force := mk_quirks false false true false false.
-Definition only_weak := mk_quirks false false false true false.
-Definition only_finalizer := mk_quirks false false false false true.
+Definition only_unreg_id := mk_quirks true false false false false false.
+Definition only_unreg_obj := mk_quirks false true false false false false.
+Definition only_force := mk_quirks false false true false false false.
+Definition only_weak := mk_quirks false false false true false false.
+Definition only_finalizer := mk_quirks false false false false true false.
+Definition only_uri := mk_quirks false false false false false true.
 
 Theorem C16_unregister_by_id_keeps_mark_refuted : exists h o,
   ~ is_registered (final only_unreg_id h) (PObj o) /\
@@ -169,10 +178,13 @@ Qed.
 Print Assumptions C16_unregister_by_id_keeps_mark_refuted.
 
 Theorem C16_force_keeps_displaced_marks_refuted : exists h o,
-  snd (step only_force (final only_force h) (Return o)) = RProxy (IdName 0) (Some (PObj 1)) /\ o <> 1.
+  ~ is_registered (final only_force h) (PObj o) /\
+  snd (step only_force (final only_force h) (Return o)) = RErr EDaemonError /\
+  snd (step (mk_quirks false false true false false true) (final only_force h) (Return o)) = RProxy (IdName 0) (Some (PObj 1)).
 Proof.
   exists [Register (PObj 0) (RNamed 0) false false; Register (PObj 1) (RNamed 0) true false], 0.
-  split; [vm_compute; reflexivity|discriminate].
+  split; [|split; vm_compute; reflexivity]. intros [i [w H]]. vm_compute in H.
+  destruct i as [|[|n]|n]; try discriminate.
 Qed.
 Print Assumptions C16_force_keeps_displaced_marks_refuted.
 
@@ -204,6 +216,14 @@ Proof.
   repeat split; vm_compute; reflexivity.
 Qed.
 Print Assumptions C16_unregister_object_stale_id_refuted.
+
+Theorem C16_uri_trusts_stale_id_refuted : exists h t i,
+  snd (step only_uri (final only_uri h) (UriObj t)) = RUri i /\ ~ registered_at (final only_uri h) i t.
+Proof.
+  exists [Register (PObj 0) (RNamed 0) false false; UnregId (IdName 0); Register (PCls 1) (RNamed 0) false false], (PObj 0), (IdName 0).
+  split; [vm_compute; reflexivity|]. intros [w H]. vm_compute in H. discriminate.
+Qed.
+Print Assumptions C16_uri_trusts_stale_id_refuted.
 
 (* open finding (not repaired; tests/test_daemon.py::testRegisterTwiceForced pins the aliasing): the
    completeness half "registered => arrives as a proxy" fails, even for the repaired behaviour, once an
